@@ -39,6 +39,50 @@ pub fn tbc_kind() -> AddKind<tbc_header::HeaderCrypto> {
     AddKind { prop: "c08", period: 20, model_key: |k| tbc_key(k).to_vec(), pair: objs::tbc_pair }
 }
 
+/// Keys made of the same bytes / words as `base` in another order, and keys whose differences cancel under XOR or
+/// addition (a fingerprint or folded comparison of the key cannot tell them apart).
+pub fn permuted_keys(base: &[u8; 40], rng: &mut Rng) -> Vec<[u8; 40]> {
+    let mut out = Vec::new();
+    let (a, b) = (rng.below(5) as usize, rng.below(5) as usize);
+    if a != b {
+        let mut k = *base;
+        for i in 0..8 {
+            k.swap(a * 8 + i, b * 8 + i);
+        }
+        out.push(k); // two aligned 8-byte words exchanged
+    }
+    let mut k = *base;
+    k.rotate_left(8);
+    out.push(k);
+    let mut k = *base;
+    k.rotate_left(4);
+    out.push(k);
+    let mut k = *base;
+    k.reverse();
+    out.push(k);
+    // same mask applied to two bytes 8 (and 4) apart
+    let mut k = *base;
+    let p = rng.below(32) as usize;
+    let m = 1u8 << rng.below(8);
+    k[p] ^= m;
+    k[p + 8] ^= m;
+    out.push(k);
+    let mut k = *base;
+    let p = rng.below(36) as usize;
+    k[p] ^= m;
+    k[p + 4] ^= m;
+    out.push(k);
+    // +1 / -1 on two bytes (sum preserved)
+    let mut k = *base;
+    let (p, q) = (rng.below(40) as usize, rng.below(40) as usize);
+    if p != q {
+        k[p] = k[p].wrapping_add(1);
+        k[q] = k[q].wrapping_sub(1);
+        out.push(k);
+    }
+    out
+}
+
 /// Feed `data` through `f` in chunks drawn from the menu; returns number of calls and empty calls.
 fn chunked(r: &mut Rng, data: &mut [u8], mut f: impl FnMut(&mut [u8])) -> (u64, u64) {
     let mut off = 0;
@@ -201,14 +245,26 @@ distinct (key class, length class) stream cells",
     let matrix_budget: u64 = match tier {
         "quick" => (period as u64) * 65536 * 3 / 2,
         "thorough" => (period as u64) * 65536 * 40,
-        _ => 3000,
+        _ => 0,
     };
     let kind_ref = &kind;
-    let parts = par(2, 2, |which| {
+    let nmat = if tier == "thorough" { 6 } else { 1 };
+    let parts = par(nmat, nmat, |which| {
         let mut rep = Rep::new();
-        if which == 0 {
-            let mut rng = Rng::new(seed, 0x700 + period as u64);
-            let k: [u8; 40] = rng.arr();
+        if matrix_budget > 0 {
+            let mut rng = Rng::new(seed, 0x700 + period as u64 + 1000 * which as u64);
+            let k: [u8; 40] = match which {
+                1 => [0u8; 40],
+                2 => [0xff; 40],
+                3 => {
+                    let mut k = [0u8; 40];
+                    for (p, b) in k.iter_mut().enumerate() {
+                        *b = (p * 7 + 3) as u8;
+                    }
+                    k
+                }
+                _ => rng.arr(),
+            };
             let mkey = (kind_ref.model_key)(&k);
             let (mut client, mut server) = (kind_ref.pair)(k);
             let mut mx = Matrix::new(period);
@@ -268,7 +324,7 @@ distinct (key class, length class) stream cells",
     // ---- 2. many keys x random streams x independent partitions (all cores)
     let nkeys: u64 = match tier {
         "quick" => 6000,
-        "thorough" => 100_000,
+        "thorough" => 400_000,
         _ => 6,
     };
     let long_streams: u64 = match tier {
@@ -276,7 +332,7 @@ distinct (key class, length class) stream cells",
         "thorough" => 48,
         _ => 0,
     };
-    let shards = 64usize;
+    let shards = if tier == "miri" { 2usize } else { 64usize };
     let r = par(shards, threads(), |sh| {
         let mut rep = Rep::new();
         let mut rng = Rng::new(seed, 0x7100 + sh as u64 + ((period as u64) << 32));
@@ -312,8 +368,8 @@ distinct (key class, length class) stream cells",
                 let len = match rng.below(10) {
                     0 => rng.below(8) as usize,
                     1..=5 => rng.below(200) as usize,
-                    6..=8 => rng.below(3000) as usize,
-                    _ => rng.below(20000) as usize,
+                    6..=8 => rng.below(if nkeys < 100 { 120 } else { 3000 }) as usize,
+                    _ => rng.below(if nkeys < 100 { 260 } else { 20000 }) as usize,
                 };
                 let plain = rng.bytes(len);
                 let lclass = if len < 8 { 0 } else if len <= period { 1 } else if len < 257 { 2 } else { 3 };
@@ -335,13 +391,19 @@ distinct (key class, length class) stream cells",
         }
         // related session keys, one after the other on this thread: keys that differ from a base key in one bit at an
         // early, middle or late byte (a derivation remembered under a partial key would show here)
-        for _ in 0..(if nkeys >= 1000 { 6 } else { 1 }) {
+        for _ in 0..(if nkeys >= 1000 { 6 } else if sh == 0 { 1 } else { 0 }) {
             let base: [u8; 40] = rng.arr();
             let mut fam: Vec<[u8; 40]> = vec![base];
             for pos in [0usize, 7, 8, 15, 16, 19, 20, 31, 32, 39] {
+                if nkeys < 100 && pos % 8 != 7 {
+                    continue;
+                }
                 let mut k2 = base;
                 k2[pos] ^= 1 << rng.below(8);
                 fam.push(k2);
+            }
+            if nkeys >= 100 {
+                fam.extend(permuted_keys(&base, &mut rng));
             }
             fam.push(base);
             for k in fam {
@@ -537,10 +599,10 @@ distinct = (key class, directions crossing 256 / 65536 bytes) cells + session ke
         .to_string();
     let (nkeys, len, huge): (usize, usize, usize) = match tier {
         "quick" => (1200, 70_000, 1),
-        "thorough" => (12_000, 70_000, 6),
+        "thorough" => (60_000, 70_000, 16),
         _ => (2, 600, 0),
     };
-    let shards = 64;
+    let shards = if tier == "miri" { 1 } else { 64 };
     let r = par(shards, threads(), |sh| {
         let mut rep = Rep::new();
         let mut rng = Rng::new(seed, 0x9000 + sh as u64);
@@ -559,7 +621,7 @@ distinct = (key class, directions crossing 256 / 65536 bytes) cells + session ke
                 rep.sample(format!("key {} : {} bytes of traffic split over both directions", hex(&k), l));
             }
         }
-        for _ in 0..(if nkeys >= 1000 { 3 } else { 1 }) {
+        for _ in 0..(if nkeys >= 1000 { 3 } else { 0 }) {
             let base: [u8; 40] = rng.arr();
             let mut fam: Vec<[u8; 40]> = vec![base];
             for pos in [0usize, 7, 8, 15, 16, 20, 31, 32, 39] {
@@ -567,6 +629,7 @@ distinct = (key class, directions crossing 256 / 65536 bytes) cells + session ke
                 k2[pos] ^= 1 << rng.below(8);
                 fam.push(k2);
             }
+            fam.extend(permuted_keys(&base, &mut rng));
             // keys with zero bytes at either end (a derivation that treats K as a number would trim them)
             for z in [1usize, 2, 8] {
                 let mut k2 = base;
